@@ -4,6 +4,7 @@
 From Cctp Require Import Lib.Bytes Lib.SMap Lib.Hex Lib.Keccak Lib.Bech32 Lib.Text Lib.Paginate.
 From Cctp Require Import Model.Codec Model.State Model.Attest Model.Ledger Model.Handlers Model.Chain
      Model.Queries Model.Genesis Model.CLI.
+From Cctp Require Import Spec.WriteDoc.
 
 (* ---------- lexing ---------- *)
 Fixpoint split_on (c : byte) (s : bytes) (cur : bytes) : list bytes :=
@@ -111,6 +112,15 @@ Definition print_state (s : store) (lg : ledger) : list bytes :=
   ++ map (fun kv => B "messenger" ++ kv_hex "k" (fst kv) ++ kv_N "domain" (tm_domain (snd kv)) ++ kv_hex "addr" (tm_address (snd kv))) (messengers s)
   ++ map (fun kv => B "nonce" ++ kv_hex "k" (fst kv) ++ kv_N "domain" (un_domain (snd kv)) ++ kv_N "nonce" (un_nonce (snd kv))) (nonces s)
   ++ map (fun kv => B "bal" ++ kv_hex "k" (fst kv) ++ kv_Z "amt" (snd kv)) lg.
+
+(* the documented write set of a transaction (Spec/WriteDoc.v), in the harness's names for store entries *)
+Definition print_wtarget (w : wtarget) : bytes :=
+  match w with
+  | WOwner => B "owner" | WPending => B "pending" | WAttMgr => B "attmgr" | WPauser => B "pauser" | WTokCtl => B "tokctl"
+  | WBm => B "bm" | WSr => B "sr" | WMaxBody => B "maxbody" | WNextNonce => B "nextnonce" | WThreshold => B "threshold"
+  | WAttester k => B "attester" ++ kv_hex "k" k | WLimit k => B "limit" ++ kv_hex "k" k | WPair k => B "pair" ++ kv_hex "k" k
+  | WMessenger k => B "messenger" ++ kv_hex "k" k | WNonce k => B "nonce" ++ kv_hex "k" k
+  end.
 
 (* ---------- interpreter state ---------- *)
 Record dstate := {
@@ -425,6 +435,7 @@ Definition run_line (d : dstate) (line : bytes) : dstate * list bytes :=
                [B "R " ++ n ++ sp ++ out]
                ++ indexed "E" n 0 (map print_event (r_events r))
                ++ indexed "D" n 0 (map print_depcall (r_calls r))
+               ++ numbered "DW" n (map print_wtarget (doc_writes t (c_st (d_chain d))))
                ++ numbered "S" n (print_state (c_st (r_chain r)) (c_lg (r_chain r))))
           end
       | _ => (d, bad (B "TX"))
